@@ -78,14 +78,18 @@ Trim(s) == IF s # <<>> /\ Blank(s[1]) THEN SubSeq(s, 2, Len(s)) ELSE IF s # <<>>
 ImplHeaderTrim(c, sent, outcome, got) == c.loc = "header" /\ c.shape = "prim" /\ outcome = "ok" /\ sent.t = "str" /\ got.t = "str" /\ got.s # sent.s /\ got.s = Trim(sent.s)
 
 (***************************** bodies: abstract ****************************)
-\* Body = {n: integer (required), s: string default "sd", on: nullable string, l: [integer]}
+\* Body = {n: integer (required), s: string default "sd", on: nullable string, l: [integer],
+\*         dn: nullable string with `default: null`, required}
 BodyExpected(b) == [b EXCEPT !.m[2] = IF b.m[2] = Absent THEN Str(<<115, 100>>) ELSE b.m[2]]
 SameBody(a, b) == a.t = "obj" /\ b.t = "obj" /\ Len(a.m) = Len(b.m) /\ \A i \in 1..Len(a.m) : SameValue(a.m[i], b.m[i])
 BodyOK(sent, outcome, got, mwgot) ==
   outcome = "ok" /\ SameBody(BodyExpected(sent), got) /\ SameBody(got, mwgot)
 
-\* Form = {a: string (required), n: integer, l: [string], d: string default "fd"}, carried as
+\* Form = {a: string (required), n: integer, l: [string], d: string default "fd",
+\*         dn: nullable string with `default: null`}, carried as
 \* application/x-www-form-urlencoded or multipart/form-data
+\* (an absent dn may arrive as absent or as null -- "no value" either way; the harness reports both
+\* as absent; a dn that was given arrives as given)
 FormExpected(b) == [b EXCEPT !.m[4] = IF b.m[4] = Absent THEN Str(<<102, 100>>) ELSE b.m[4]]
 FormOK(sent, outcome, got, mwgot) ==
   outcome = "ok" /\ SameBody(FormExpected(sent), got) /\ SameBody(got, mwgot)
